@@ -859,11 +859,32 @@ func genOps(r *vf.Rand, n, nargs, cacheMode int) []Op {
 		}
 		return Op{K: sources[r.Intn(len(sources))], N: r.Intn(4), Mat: r.Chance(1, 6)}
 	}
-	ops = append(ops, src())
+	// fan: one Result argument consumed two or three times by the same Func --
+	// pipelined and through shuffles that cannot share a memo entry (different
+	// shard counts, a custom partitioner, a combiner) -- and joined again.
+	fan := func() {
+		idx := len(ops)
+		ops = append(ops, Op{K: "result", N: r.Intn(nargs)})
+		kinds := []string{"map", "reshard", "reshard", "reshard", "reshuffle", "repartition", "reduce", "fold"}
+		k := 2 + r.Intn(2)
+		var ins []int
+		for j := 0; j < k; j++ {
+			ops = append(ops, Op{K: kinds[r.Intn(len(kinds))], In: []int{idx}, N: j + r.Intn(3)})
+			ins = append(ins, len(ops)-1)
+		}
+		ops = append(ops, Op{K: "cogroup", In: ins})
+	}
+	if nargs > 0 && r.Chance(1, 2) {
+		fan()
+	} else {
+		ops = append(ops, src())
+	}
 	for len(ops) < n {
 		switch x := r.Intn(20); {
 		case x == 0:
 			ops = append(ops, src())
+		case x == 7 && nargs > 0:
+			fan()
 		case x <= 2: // cogroup, often over slices sharing an ancestor
 			k := 1 + r.Intn(3)
 			op := Op{K: "cogroup"}
